@@ -190,6 +190,9 @@ def build(spec, route=0):
             v = topo.integral(function.J(geom), degree=2).as_evaluable_array
         elif what == 'basis':
             v = topo.basis('std', 1).as_evaluable_array if hasattr(topo.basis('std', 1), 'as_evaluable_array') else topo.references
+        elif what in MESH_EXTRA:
+            from nutils import function, evaluable
+            v = MESH_EXTRA[what](topo, geom, function, evaluable, spec[2])
         if route % 3 == 2:
             v = pickle.loads(pickle.dumps(v))
         return v
@@ -208,6 +211,27 @@ def build(spec, route=0):
         s = solver.System((res,), trial='u')
         return pickle.loads(pickle.dumps(s)) if route == 1 else s
     raise ValueError(spec)
+
+
+MESH_EXTRA = {
+    'rtransforms': lambda t, g, F, E, m: t.refined.transforms,
+    'rreferences': lambda t, g, F, E, m: t.refined.references,
+    'itransforms': lambda t, g, F, E, m: t.interfaces.transforms,
+    'iopposites': lambda t, g, F, E, m: t.interfaces.opposites,
+    'breferences': lambda t, g, F, E, m: t.boundary.references,
+    'bsample': lambda t, g, F, E, m: t.boundary.sample('gauss', 2),
+    'hier': lambda t, g, F, E, m: t.refined_by([0]).transforms,
+    'hierrefs': lambda t, g, F, E, m: t.refined_by([0]).references,
+    'sub': lambda t, g, F, E, m: t.take([0]).transforms,
+    'usample': lambda t, g, F, E, m: t.sample('uniform', 2),
+    'bezier': lambda t, g, F, E, m: t.sample('bezier', 3),
+    'trimrefs': lambda t, g, F, E, m: t.trim((g[0] if g.ndim else g) - .4, maxrefine=1).references if m != 'line' else t.references,
+    'ref0': lambda t, g, F, E, m: t.references[0],
+    'edge': lambda t, g, F, E, m: t.references[0].edge_refs[0],
+    'child': lambda t, g, F, E, m: t.references[0].child_refs[0],
+    'pts': lambda t, g, F, E, m: t.references[0].getpoints('gauss', 2),
+    'lowered': lambda t, g, F, E, m: F.J(g if g.ndim else g[numpy.newaxis]).lower(F.LowerArgs.for_space(t.space, (t.transforms, t.opposites), E.constant(0), E.constant(numpy.zeros((1, t.ndims))))),
+}
 
 
 def is_interned(spec):
@@ -345,7 +369,7 @@ def gen_spec(rng, depth=0):
         b = rng.choice([['ev', 'arg', 'z', [2]], ['ev', 'const', ['arr', 'f', [2], [rng.choice([0.5, 1.5]), 2.0]]]])
         return ['ev', k, a, b]
     if r < 0.97:
-        return ['mesh', rng.choice(['references', 'transforms', 'btransforms', 'points', 'sample', 'integral']), rng.choice(['line', 'quad', 'tri']), rng.choice([1, 2, 3])]
+        return ['mesh', rng.choice(['references', 'transforms', 'btransforms', 'points', 'sample', 'integral'] + sorted(MESH_EXTRA)), rng.choice(['line', 'quad', 'tri']), rng.choice([1, 2, 3])]
     if r < 0.985:
         return ['method', rng.choice(['Direct', 'Newton', 'LinesearchNewton']), [['atol', ['float', rng.choice([1e-8, 1e-6])]], ['solver', ['str', rng.choice(['arnoldi', 'direct'])]]]]
     return ['system', rng.choice([1, 2]), rng.choice([1, 3])]
